@@ -22,7 +22,9 @@ def whole(name, contract, obligation, ghost=(), rewrites=(), loop_fn=None, sigfi
 
 UNIT = Unit(
     name="U-INFERCTRL",
-    properties=["C03"],
+    properties=["C03", "C05"],
+    # C05 only claims the clause about the scope an arm's pattern is checked in
+    clause_scope={"C05": {"only": ["top_fresh("]}},
     rules=["attrs", "fmtmsg", ("strip", "tast::"), ("strip", "hir::"), ("strip", "common_defs::"), ("strip", "super::util::"), "for_index"],
     describe="Typer::{infer_if_expr, infer_while_expr, infer_go_expr, infer_tuple_expr, infer_field_expr, infer_unary_expr, infer_binary_expr} (whole): the typing rule of each form is recorded — a builtin operator's operands and result are related as the operator demands (arithmetic: one type; logic: bools; comparison: a bool over one operand type);  an `if`'s condition is "
              "equated with bool and BOTH branches with the type the `if` is given; a `while`'s condition with bool, its body with unit, and it has type unit; the operand of `go` "
@@ -46,6 +48,15 @@ UNIT = Unit(
         whole("infer_binary_expr",
               "ensures r matches Expr::EBinary { op: o, lhs: l, rhs: rr, ty, resolution: _ } && o == op && inferred(lhs, *l) && inferred(rhs, *rr) && binary_rule_ok(op, *l, *rr, ty, final(self).recorded()),",
               "arithmetic: both operands have the result's type; `&&` / `||`: bools; comparison / equality: a bool, both operands of ONE type"),
+        Fn(file=C, name="infer_match_expr", container="Typer", ret="r", attrs="#[verifier::loop_isolation(false)]",
+           pre_rewrites=[("arms: &[hir::Arm]", "arms: &Vec<HirArm>", 1), ("let mut arms_tast = Vec::new();", "let mut arms_tast: Vec<Arm> = Vec::new();", 1)],
+           rewrites=[VC, PUSHED],
+           obligation="match: every arm's pattern is checked against the scrutinee's type — in a scope opened for that arm alone — and every arm's body has the type the match is given",
+           contract="ensures match_rule_ok(expr, arms@, r, final(self).recorded()),",
+           loop_fn=lambda k, header, kw: (lambda mt: (f"invariant {mt.group(1)} <= arms.len(), arms_tast@.len() == {mt.group(1)}, inferred(expr, expr_tast), expr_ty == ty_of_expr(expr_tast),\n"
+               f"  forall|j: int| 0 <= j < {mt.group(1)} ==> pat_checked(arms@[j].pat, expr_ty, (#[trigger] arms_tast@[j]).pat) && inferred(arms@[j].body, arms_tast@[j].body) "
+               f"&& self.recorded().contains(Constraint::TypeEqual(ty_of_expr(arms_tast@[j].body), arm_ty)),\n decreases arms.len() - {mt.group(1)},") if mt else None)(
+               re.search(r"while\s+(__fk\d+)\s*<\s*arms\.len\(\)", header))),
         whole("infer_go_expr",
               "ensures r matches Expr::EGo { expr: x, ty } && ty is TUnit && inferred(expr, *x)\n"
               "  && exists|ft: Ty| #[trigger] final(self).recorded().contains(Constraint::TypeEqual(expr_ty(*x), ft)) && (ft matches Ty::TFunc { params, ret_ty } && params@.len() == 0 && *ret_ty is TUnit),",
